@@ -1,9 +1,11 @@
 // Package pilerd drives a real pals.Piler (property C16): feature pairs are
 // added in a given order, Piles is called several times (nil filter, again,
-// pair filters, nil again) and everything the property speaks about is
-// logged: Add errors, every reported pile (location, From, To, member
-// feature ids), and for every feature of an accepted pair the pile its
-// Location() points at and the feature its Mate() returns.  No judgement is
+// pair filters, nil again; or the pair filters first, on the fresh piler) and
+// everything the property speaks about is logged: Add errors, every reported
+// pile (location, From, To, member feature ids), for every feature of an
+// accepted pair the pile its Location() points at and the feature its Mate()
+// returns, and what every filter saw of the pairs it was consulted about
+// (were both features located in a pile, and in which).  No judgement is
 // made here; PilerTrace.tla recomputes the components and decides.
 package pilerd
 
@@ -63,12 +65,51 @@ func safePiles(p *pals.Piler, f pals.PairFilter) (piles []*pals.Pile, res string
 	return p.Piles(f), ""
 }
 
-// Run adds seq to a fresh pals.NewPiler(0) and logs one event.  filters lists, for every
-// filtered Piles call, the (1-based) indexes of the pairs the filter lets through.
+// Call is one Piles call of an instance.  Kind "nil": no filter; "set": the filter lets the
+// pairs with the (1-based) indexes in Pass through; "spanA", "spanB", "spanBoth", "spanAny":
+// the filter reads Location().Len() of the pair's A and B feature and keeps the pair when
+// the A / the B / both / either of these is at least L (which pairs that are is computed by
+// the specification from the components, never here).
+type Call struct {
+	Kind string `json:"kind"`
+	L    int    `json:"L"`
+	Pass []int  `json:"pass"`
+}
+
+// Plan orders the Piles calls of an instance: either Piles(nil), Piles(nil), the filters,
+// Piles(nil), or - filtersFirst - the filters on the fresh piler, then Piles(nil), Piles(nil).
+func Plan(filters []Call, filtersFirst bool) []Call {
+	nilc := Call{Kind: "nil"}
+	if filtersFirst {
+		return append(append([]Call{}, filters...), nilc, nilc)
+	}
+	return append(append([]Call{nilc, nilc}, filters...), nilc)
+}
+
+func lenOf(f feat.Feature) int {
+	if f == nil {
+		return 0
+	}
+	if p, ok := f.(*pals.Pile); ok && p == nil {
+		return 0
+	}
+	return f.Len()
+}
+
+// sight is what a filter saw when it was invoked: the pair and where its features were located.
+type sight struct {
+	k      int
+	pa, pb *pals.Pile // nil: Location() was not a *pals.Pile
+}
+
+// Run adds seq to a fresh pals.NewPiler(0), makes the Piles calls of plan and logs one event.
+// Every filter, whatever its kind, records at each invocation whether Location() of both
+// features of the pair it is handed is a *pals.Pile, and which.
 // corrupt != "" deliberately falsifies one logged field (binding self-test only).
-func Run(w *vt.W, src string, id int, seq []PairIn, filters [][]int, corrupt string) {
+func Run(w *vt.W, src string, id int, seq []PairIn, plan []Call, corrupt string) {
 	p := pals.NewPiler(0)
 	featID := map[*pals.Feature]int{}
+	pairID := map[*pals.Pair]int{}
 	var feats []*pals.Feature // index = id-1
 	adds := []vt.Ev{}
 	accepted := []int{}
@@ -79,6 +120,7 @@ func Run(w *vt.W, src string, id int, seq []PairIn, filters [][]int, corrupt str
 		fp := &pals.Pair{A: a, B: b, Score: k}
 		a.Pair, b.Pair = fp, fp
 		featID[a], featID[b] = 2*k-1, 2*k
+		pairID[fp] = k
 		feats = append(feats, a, b)
 		err := safeAdd(p, fp)
 		if err == "" {
@@ -90,24 +132,41 @@ func Run(w *vt.W, src string, id int, seq []PairIn, filters [][]int, corrupt str
 	for i := range all {
 		all[i] = i + 1
 	}
-	type call struct {
-		nilf bool
-		pass []int
-	}
-	plan := []call{{true, all}, {true, all}}
-	for _, f := range filters {
-		plan = append(plan, call{false, f})
-	}
-	plan = append(plan, call{true, all})
 	calls := []vt.Ev{}
-	for ci, c := range plan {
+	firstNil, firstFiltered, firstSpan := true, true, true
+	for _, c := range plan {
+		c := c
+		nilf := c.Kind == "nil"
 		var f pals.PairFilter
-		if !c.nilf {
+		var sights []sight
+		unplaced := 0
+		if !nilf {
 			pass := map[int]bool{}
-			for _, k := range c.pass {
+			for _, k := range c.Pass {
 				pass[k] = true
 			}
-			f = func(fp *pals.Pair) bool { return pass[fp.Score] }
+			f = func(fp *pals.Pair) bool {
+				la, lb := fp.A.Location(), fp.B.Location()
+				pa, _ := la.(*pals.Pile)
+				pb, _ := lb.(*pals.Pile)
+				if pa == nil || pb == nil {
+					unplaced++
+				}
+				if len(sights) < 4*len(seq)+16 {
+					sights = append(sights, sight{pairID[fp], pa, pb})
+				}
+				switch c.Kind {
+				case "spanA":
+					return lenOf(la) >= c.L
+				case "spanB":
+					return lenOf(lb) >= c.L
+				case "spanBoth":
+					return lenOf(la) >= c.L && lenOf(lb) >= c.L
+				case "spanAny":
+					return lenOf(la) >= c.L || lenOf(lb) >= c.L
+				}
+				return pass[pairID[fp]]
+			}
 		}
 		piles, perr := safePiles(p, f)
 		index := map[*pals.Pile]int{}
@@ -125,6 +184,23 @@ func Run(w *vt.W, src string, id int, seq []PairIn, filters [][]int, corrupt str
 				im = append(im, featID[f]) // 0 = a feature that was never handed to Add
 			}
 			pl = append(pl, vt.Ev{"loc": locNumber(pile.Loc), "from": pile.From, "to": pile.To, "im": im})
+		}
+		// what the filter saw, the piles named by their index in the returned slice
+		// (0: a pile that was not returned, -1: not a pile), distinct triples only
+		seen := [][]int{}
+		dedup := map[[3]int]bool{}
+		at := func(q *pals.Pile) int {
+			if q == nil {
+				return -1
+			}
+			return index[q]
+		}
+		for _, s := range sights {
+			t := [3]int{s.k, at(s.pa), at(s.pb)}
+			if !dedup[t] {
+				dedup[t] = true
+				seen = append(seen, t[:])
+			}
 		}
 		fs := [][]int{}
 		for _, k := range accepted {
@@ -145,7 +221,7 @@ func Run(w *vt.W, src string, id int, seq []PairIn, filters [][]int, corrupt str
 				fs = append(fs, []int{featID[ft], at, mate})
 			}
 		}
-		if corrupt != "" && ci == 0 && len(pl) > 0 {
+		if corrupt != "" && nilf && firstNil && len(pl) > 0 {
 			switch corrupt {
 			case "to":
 				pl[0]["to"] = pl[0]["to"].(int) + 1
@@ -166,15 +242,53 @@ func Run(w *vt.W, src string, id int, seq []PairIn, filters [][]int, corrupt str
 				adds[len(adds)-1]["err"] = "pals: attempt to add duplicate feature pair to pile"
 			}
 		}
-		calls = append(calls, vt.Ev{"nilf": c.nilf, "pass": append([]int{}, c.pass...), "panic": perr, "piles": pl, "feats": fs})
+		if corrupt != "" && !nilf && firstFiltered {
+			switch corrupt {
+			case "unplaced":
+				unplaced++
+			case "seen":
+				if len(seen) > 0 {
+					seen[0][1] = 0
+				}
+			}
+		}
+		if corrupt == "spanim" && !nilf && c.Kind != "set" && firstSpan && len(pl) > 0 {
+			// drop a member the filter kept, or list one it rejected
+			firstSpan = false
+			if im := pl[0]["im"].([]int); len(im) > 0 {
+				pl[0]["im"] = im[1:]
+			} else {
+				for _, x := range fs {
+					if x[1] == 1 {
+						pl[0]["im"] = []int{x[0]}
+						break
+					}
+				}
+			}
+		}
+		if nilf {
+			firstNil = false
+		} else {
+			firstFiltered = false
+		}
+		ps := append([]int{}, c.Pass...)
+		if nilf {
+			ps = all
+		}
+		calls = append(calls, vt.Ev{"nilf": nilf, "kind": c.Kind, "L": c.L, "pass": ps, "panic": perr,
+			"unplaced": unplaced, "seen": seen, "piles": pl, "feats": fs})
 	}
 	w.Emit(vt.Ev{"op": "pile", "src": src, "id": id, "adds": adds, "calls": calls})
 }
 
-// subsets returns the filters used on an instance of k pairs: every subset of the pairs
-// when there are at most three, else four random subsets (always including the empty one).
-func subsets(rng *rand.Rand, k int) [][]int {
-	var out [][]int
+// filtersFor returns the filters used on an instance: as "set" filters every subset of the
+// pairs when there are at most three, else four random subsets (always including the empty
+// one); and two pile-reading filters whose threshold is taken near the length of a feature
+// of the instance (a pile spans at least the length of each of its members).  The order is
+// shuffled, so that any of them may be the first call on the fresh piler.
+func filtersFor(rng *rand.Rand, seq []PairIn) []Call {
+	k := len(seq)
+	var out []Call
 	if k <= 3 {
 		for m := 0; m < 1<<uint(k); m++ {
 			s := []int{}
@@ -183,21 +297,43 @@ func subsets(rng *rand.Rand, k int) [][]int {
 					s = append(s, i+1)
 				}
 			}
-			out = append(out, s)
+			out = append(out, Call{Kind: "set", Pass: s})
 		}
-		return out
-	}
-	out = append(out, []int{})
-	for j := 0; j < 3; j++ {
-		s := []int{}
-		for i := 1; i <= k; i++ {
-			if rng.Intn(2) == 0 {
-				s = append(s, i)
+	} else {
+		out = append(out, Call{Kind: "set", Pass: []int{}})
+		for j := 0; j < 3; j++ {
+			s := []int{}
+			for i := 1; i <= k; i++ {
+				if rng.Intn(2) == 0 {
+					s = append(s, i)
+				}
 			}
+			out = append(out, Call{Kind: "set", Pass: s})
 		}
-		out = append(out, s)
 	}
+	kinds := []string{"spanA", "spanB", "spanBoth", "spanAny"}
+	for j := 0; j < 2 && k > 0; j++ {
+		c := seq[rng.Intn(k)][rng.Intn(2)]
+		l := c.E - c.S
+		switch rng.Intn(3) {
+		case 1:
+			l++
+		case 2:
+			l *= 2
+		}
+		if l < 1 {
+			l = 1
+		}
+		out = append(out, Call{Kind: kinds[rng.Intn(len(kinds))], L: l, Pass: []int{}})
+	}
+	rng.Shuffle(len(out), func(i, j int) { out[i], out[j] = out[j], out[i] })
 	return out
+}
+
+// planFor draws the filters of an instance and whether they come first (on the fresh piler).
+func planFor(rng *rand.Rand, seq []PairIn) []Call {
+	fs := filtersFor(rng, seq)
+	return Plan(fs, rng.Intn(2) == 0)
 }
 
 // permutations calls f with every distinct ordering of seq.
@@ -242,19 +378,30 @@ func Replay(w *vt.W, in string, rng *rand.Rand, perm bool, corrupt string) (beha
 			continue
 		}
 		var seq []PairIn
-		var given [][]int
+		var given []Call
 		if sc.Bytes()[0] == '{' {
-			// a stored instance (replay of a reported violation): the Adds and the filters used
+			// a stored instance (replay of a reported violation): the Adds and the Piles calls made
+			// (older stored instances: only the "set" filters, run after two unfiltered calls)
 			var o struct {
 				Seq     []PairIn `json:"seq"`
+				Plan    []Call   `json:"plan"`
 				Filters [][]int  `json:"filters"`
 			}
 			if err := json.Unmarshal(sc.Bytes(), &o); err != nil {
 				vt.Fatal("instance %d of %s: %v", behaviours, in, err)
 			}
-			seq, given = o.Seq, o.Filters
+			seq, given = o.Seq, o.Plan
 			if given == nil {
-				given = [][]int{}
+				fs := []Call{}
+				for _, f := range o.Filters {
+					fs = append(fs, Call{Kind: "set", Pass: f})
+				}
+				given = Plan(fs, false)
+			}
+			for i := range given {
+				if given[i].Pass == nil {
+					given[i].Pass = []int{}
+				}
 			}
 		} else if err := json.Unmarshal(sc.Bytes(), &seq); err != nil {
 			vt.Fatal("behaviour %d of %s: %v", behaviours, in, err)
@@ -269,11 +416,11 @@ func Replay(w *vt.W, in string, rng *rand.Rand, perm bool, corrupt string) (beha
 		if perm {
 			permutations(seq, func(s []PairIn) {
 				instances++
-				Run(w, src, instances, s, subsets(rng, len(s)), corrupt)
+				Run(w, src, instances, s, planFor(rng, s), corrupt)
 			})
 		} else {
 			instances++
-			Run(w, src, instances, seq, subsets(rng, len(seq)), corrupt)
+			Run(w, src, instances, seq, planFor(rng, seq), corrupt)
 		}
 	}
 	if err := sc.Err(); err != nil {
@@ -331,7 +478,7 @@ func Random(w *vt.W, rng *rand.Rand, n, maxPairs int) {
 				seq = append(seq, PairIn{one(), one()})
 			}
 		}
-		Run(w, "random", c, seq, subsets(rng, len(seq)), "")
+		Run(w, "random", c, seq, planFor(rng, seq), "")
 	}
 }
 
